@@ -45,7 +45,10 @@ def run(tier, prop=PROP, mode="json"):
     tot["states"] = tot["cases"]
     tot["replays_ok"] = checked
     tot["samples"] = [s for p in parts for s in p["samples"]][:6]
-    tot["distinct_outcomes"] = 2
+    shapes = set()
+    for p in parts:
+        shapes |= p["shapes"]
+    tot["distinct_outcomes"] = len(shapes)   # distinct inputs that need escaping, carry custom attributes or a null source location
     if mode == "json":
         rule = ("every string <= K symbols over 46 code points (all C0 controls, quote, backslash, slash, DEL, U+0080, U+0085, U+00E9, U+2028, U+2029, U+FFFD, U+FFFF, U+10000, U+1F600) as message text, "
                 "as string attribute value and as attribute name; all pairs of strings <= 1 x 5 types; 35 typed values (int/uint/64-bit up to +-2^53, doubles, bools, nested lists/maps/hashes/string lists) alone, nested and in all ordered pairs; "
